@@ -15,7 +15,7 @@ import ibldsp.waveform_extraction as WE
 import ibldsp.utils as U
 import spikeglx
 from pyvc.api import harness, bounded, property_meta, run_function
-from pyvc.core import SV, term, fresh_name, NAN
+from pyvc.core import SV, term, fresh_name, NAN, Unsupported
 from pyvc import arrays as A, pdmodel
 from pyvc.arrays import SArr
 from pyvc.interp import SObj, LoopSpec
@@ -584,6 +584,76 @@ def h_chunks(H):
         # what write_wfs_chunk's contract requires of its caller (harness write_wfs_chunk)
         it.ctx.oblige("chunks.job.meets_write_wfs_chunk_precondition", A.forall([q], lambda: z3.Implies(z3.And(q >= 0, q < hi - lo), z3.And(col.read((q,)) >= s0.read((i,)), col.read((q,)) < s1.read((i,)), s0.read((i,)) == i * chunk))), "post", assume=False)
     S.explore(body)
+
+
+# ----------------------------------------------------------------------------- WaveformsLoader.load_waveforms (data version 2)
+def replay_loader(vals, oid):
+    b, _ = native_e2e(np.random.default_rng(21), 6100, 1000, 1, sizes=[5, 16, 30], max_wf=16, seed=4)
+    b = [x for x in b if x[0].startswith("loader")]
+    return {"failed": bool(b), "examples": [repr(x)[:200] for x in b[:3]]}
+
+
+@harness(PROPERTY, "load_waveforms", functions=["ibldsp.waveform_extraction:WaveformsLoader.load_waveforms"], replay=replay_loader,
+         clause="the loader returns what was saved: the rows of the requested units (and running indices), with their own traces, table rows and channel maps")
+def h_loader(H):
+    import iblutil.numerical
+    for with_indices in (False, True):
+        S = H.session(f"loader.indices{with_indices}")
+
+        def body(it, with_indices=with_indices):
+            nw, nc, L, nl, ni = z3.Ints("nwaveforms nc spike_length nlabels nindices")
+            it.ctx.assume(z3.And(nw >= 1, nc >= 1, L >= 1, nl >= 1, ni >= 1))
+            traces = A.fresh_array("traces", "float32", (nw, nc, L))
+            chans = A.fresh_array("channels", "int64", (nw, nc), ranged=False)
+            cluster = A.fresh_array("cluster", "int64", (nw,), ranged=False)
+            running = A.fresh_array("index_within_clusters", "int64", (nw,), ranged=False)
+            sample = A.fresh_array("sample", "int64", (nw,), ranged=False)
+            labels = A.fresh_array("labels", "int64", (nl,), ranged=False)
+            indices = A.fresh_array("indices", "int64", (ni,), ranged=False) if with_indices else None
+            table = pdmodel.SFrame({"sample": sample, "cluster": cluster, "index_within_clusters": running})
+
+            def ismember_summary(it_, a, k):
+                # A-IBLUTIL ismember(a, b)[0] == np.isin(a, b) (its first line); the locations are not used by the loader
+                return pdmodel.membership(a[0], a[1]), None
+            it.session.contracts[iblutil.numerical.ismember] = ismember_summary
+            it.session.contracts[WE.ismember] = ismember_summary
+            ldr = SObj(WE.WaveformsLoader, data_version=2, traces=traces, channels=chans, df_wav=table, df_clusters=None)
+            wfs, info, ch = run_function(it, WE.WaveformsLoader.load_waveforms, [ldr], {"labels": labels, "indices": indices})
+            tag = f"indices{with_indices}"
+            ml = getattr(it.ctx, "member_log", [])
+            wl = [w_ for w_ in it.ctx.where_log if w_["ndim"] == 1]
+            if len(ml) != (2 if with_indices else 1) or not wl:
+                raise Unsupported("cannot identify the label / index membership tests and the row selection of load_waveforms()")
+            in_labels = lambda r_: z3.Exists([z3.Int("jl")], z3.And(z3.Int("jl") >= 0, z3.Int("jl") < nl, labels.read((z3.Int("jl"),)) == cluster.read((r_,))))       # noqa
+            in_indices = (lambda r_: z3.Exists([z3.Int("ji")], z3.And(z3.Int("ji") >= 0, z3.Int("ji") < ni, indices.read((z3.Int("ji"),)) == running.read((r_,))))) if with_indices else (lambda r_: z3.BoolVal(True))  # noqa
+            wanted = lambda r_: z3.And(in_labels(r_), in_indices(r_))     # noqa
+            n_out = A.T(wfs.shape[0])
+            k, k2, c, t, r = z3.Ints("k k2 c t r")
+            # the selected rows as a function of the output position: recovered from the returned table (its 'sample' column is a gather of the table's)
+            rows = _loader_rows(it, wl, with_indices)
+            it.ctx.oblige(f"loader.rows.sound_and_ordered.{tag}", z3.And(A.T(info.n) == n_out, A.T(ch.shape[0]) == n_out,
+                          A.forall([k], lambda: z3.Implies(z3.And(k >= 0, k < n_out), z3.And(rows(k) >= 0, rows(k) < nw, wanted(rows(k))))),
+                          A.forall([k, k2], lambda: z3.Implies(z3.And(k >= 0, k < k2, k2 < n_out), rows(k) < rows(k2)))), "post",
+                          "every returned row belongs to a requested unit (and running index); rows come in table order, none twice", assume=False)
+            it.ctx.oblige(f"loader.rows.complete.{tag}", A.forall([r], lambda: z3.Implies(z3.And(r >= 0, r < nw, wanted(r)), z3.Exists([k], z3.And(k >= 0, k < n_out, rows(k) == r)))), "post",
+                          "every saved row of a requested unit (and running index) is returned", assume=False)
+            it.ctx.oblige(f"loader.same_rows_everywhere.{tag}", z3.And(
+                A.forall([k, c, t], lambda: z3.Implies(z3.And(k >= 0, k < n_out, c >= 0, c < nc, t >= 0, t < L), wfs.read((k, c, t)) == traces.read((rows(k), c, t)))),
+                A.forall([k, c], lambda: z3.Implies(z3.And(k >= 0, k < n_out, c >= 0, c < nc), ch.read((k, c)) == chans.read((rows(k), c)))),
+                A.forall([k], lambda: z3.Implies(z3.And(k >= 0, k < n_out), z3.And(info["sample"].to_numpy().read((k,)) == sample.read((rows(k),)), info["cluster"].to_numpy().read((k,)) == cluster.read((rows(k),)))))), "post",
+                "waveforms, table rows and channel maps returned at position k all come from the same saved row", assume=False)
+        S.explore(body)
+
+
+def _loader_rows(it, wl, with_indices):
+    """position k of the output -> saved row: the where() enumeration of the label mask, then (with indices) of the running-index mask within it"""
+    first = wl[0]
+    if not with_indices:
+        return lambda k: first["rows"](k)
+    if len(wl) < 2:
+        raise Unsupported("cannot identify the second selection (running indices) of load_waveforms()")
+    second = wl[-1]
+    return lambda k: first["rows"](second["rows"](k))
 
 
 # ----------------------------------------------------------------------------- make_channel_index: neighbours within the radius, ascending, padded
